@@ -15,6 +15,12 @@ Theorem C15_block_shape :
     starts_with (lit "/**") (parse_docs ls) = true /\ exists body, parse_docs ls = body ++ lit "*/" ++ [nl].
 Proof. exact parse_docs_shape. Qed.
 
+(* the block never contains an empty line (a newline directly followed by a newline), whatever the doc strings hold:
+   where blocks of one file are separated by an empty line (C05), documentation and declaration stay one block *)
+Theorem C15_no_empty_line :
+  forall ls, has_blank (parse_docs ls) = false.
+Proof. exact parse_docs_no_blank. Qed.
+
 Theorem C15_no_docs_no_comment : parse_docs [] = [].
 Proof. exact parse_docs_nil. Qed.
 
@@ -35,6 +41,11 @@ Theorem C15_type_docs_do_not_change_the_type :
 Proof. exact type_docs_irrelevant. Qed.
 
 (* the escaping at work on the inputs that used to break out of the comment *)
+Example C15_empty_lines_filled :
+  parse_docs [nl :: nl :: lit "x"] = lit "/**" ++ [nl] ++ lit " *" ++ [nl] ++ lit "x*/" ++ [nl] /\
+  parse_docs [lit "a" ++ [nl]; nl :: lit "b"] = lit "/**" ++ [nl] ++ lit " *a" ++ [nl] ++ lit " *" ++ [nl] ++ lit " *" ++ [nl] ++ lit "b" ++ [nl] ++ lit " */" ++ [nl].
+Proof. split; reflexivity. Qed.
+
 Example C15_escapes :
   parse_docs [lit " a glob **/*.rs here"] = lit "/**" ++ [nl] ++ lit " * a glob **\/*.rs here" ++ [nl] ++ lit " */" ++ [nl] /\
   parse_docs [lit "/etc/passwd"] = lit "/**" ++ [nl] ++ lit " * /etc/passwd" ++ [nl] ++ lit " */" ++ [nl].
@@ -42,6 +53,7 @@ Proof. split; reflexivity. Qed.
 
 Print Assumptions C15_contained.
 Print Assumptions C15_block_shape.
+Print Assumptions C15_no_empty_line.
 Print Assumptions C15_no_docs_no_comment.
 Print Assumptions C15_field_docs_do_not_change_the_type.
 Print Assumptions C15_type_docs_do_not_change_the_type.
